@@ -204,11 +204,46 @@ func wireMutate(r *wireRun, rounds int) {
 					st, _ := readPkg(p, m)
 					if st == "ok" {
 						_ = p.String()
+						if cp, isCap := p.(*tds.CapabilityPackage); isCap {
+							// what the client does with a received capability package: ask it
+							for _, c := range []int{0, 1, 7, 8, 63, 64, 105, 106, 200} {
+								_ = cp.HasRequestCapability(tds.RequestCapability(c))
+								_ = cp.HasResponseCapability(tds.ResponseCapability(c))
+								_ = cp.HasSecurityCapability(tds.SecurityCapability(c))
+							}
+						}
 					}
 					return st
 				})
 			})
 			b.emit(r.tr)
+		}
+		// CAPABILITY (the server's answer in the login): mutated encodings and answers that lack blocks;
+		// after an accepted parse the client asks the package for capabilities
+		{
+			bc := &mutBatch{level: "package", kind: "CAPABILITY"}
+			askCaps := func(m []byte) string {
+				p, _ := tds.LookupPackage(tds.TDS_CAPABILITY)
+				st, _ := readPkg(p, m)
+				if st == "ok" {
+					_ = p.String()
+					cp := p.(*tds.CapabilityPackage)
+					for _, c := range []int{0, 1, 7, 8, 63, 64, 105, 106, 200} {
+						_ = cp.HasRequestCapability(tds.RequestCapability(c))
+						_ = cp.HasResponseCapability(tds.ResponseCapability(c))
+						_ = cp.HasSecurityCapability(tds.SecurityCapability(c))
+					}
+				}
+				return st
+			}
+			full := encCapability([]int{1, 2, 3}, map[int][]byte{1: capMask(peerReqCaps), 2: capMask(peerResCaps), 3: {1}}).Bytes[1:]
+			mutations(r.rng, full, func(m []byte) { bc.run(m, func() string { return askCaps(m) }) })
+			for _, blocks := range [][]int{{}, {1}, {2}, {3}, {1, 2}, {2, 3}, {9}, {1, 1}} {
+				masks := map[int][]byte{1: capMask(peerReqCaps), 2: capMask(peerResCaps), 3: {1}, 9: {255}}
+				m := encCapability(blocks, masks).Bytes[1:]
+				bc.run(m, func() string { return askCaps(m) })
+			}
+			bc.emit(r.tr)
 		}
 		// format packages, and format packages followed by arbitrary / mutated data bytes
 		for _, tok := range rowfmtTok {
